@@ -36,6 +36,23 @@ def r1_typestate(run):
     m = run.model
     cons = _assertion_constructions(m)
     run.floor("R1", "Assertion(identity) constructions", len(cons), 2)
+    # `Assertion(identity).construct(...)` - no name, hence no apply_policy
+    for mi in m.modules.values():
+        for fi in m.funcs.values():
+            if fi.module != mi.name:
+                continue
+            for c in walk_no_nested(fi.node):
+                if isinstance(c, ast.Call) and \
+                        isinstance(c.func, ast.Attribute) and \
+                        c.func.attr == "construct" and \
+                        isinstance(c.func.value, ast.Call) and \
+                        call_name(c.func.value) == "Assertion" and \
+                        "saml2_tophat.assertion.Assertion" in \
+                        m.resolve_name(mi, "Assertion"):
+                    run.violated("R1", "%s::Assertion(...).construct" % fi.qual,
+                                 "an assertion is built straight from a freshly "
+                                 "wrapped identity: no policy can have been "
+                                 "applied", fi.loc(c))
     for fi, stmt, var in cons:
         cfg = cfg_of(fi, m)
         start = cfg.node_of_stmt(stmt)
